@@ -39,4 +39,33 @@ CHECKS = {
              "least once; distinct = distinct (config, wrapper, length, first sample).",
         assumptions=COMMON_ASSUME + ["configuration domain as stated in the property (valid configurations); Gradient initial >= its floor"],
     ),
+    "C06": dict(
+        pkg="c06", race=False, shards=(4, 16), timeout_s=(300, 1800),
+        technique="before/after monitor on drop samples from seeded reachable states + bounded-progress monitor on sustained drop runs",
+        level_text="From PRNG-generated reachable states (config + random prior history) every drop sample is checked for non-increase of the "
+                   "reported estimate, AIMD additionally for the exact rule max(1,min(limit-1,floor(limit*ratio))) (exact rational and float floor "
+                   "both accepted); sustained drop runs with unique increasing RTTs (so probes are observable) must reach the floor within an "
+                   "analytic bound of effective samples; cap without enough effective samples is inconclusive. Exploration.",
+        require=["single_drop_samples", "single_drop_lowered", "aimd_exact_rule_checks", "sustained_drop_samples",
+                 "floor_reached/aimd", "floor_reached/vegas", "floor_reached/gradient", "probe_or_baseline_samples_observed"],
+        rule="case = (algorithm in AIMD/Vegas/Gradient, valid config, random prefix of 0-150 benign/hostile samples) then either 1-4 hostile drop "
+             "samples or a sustained drop run; non-trivial = some drop lowered the estimate / the run started above the floor; distinct = "
+             "distinct (config, history length, last sample / start estimate).",
+        assumptions=COMMON_ASSUME + ["bounded part: smoothing>=0.05, max<=300, Vegas probe multiplier>=5, Gradient initial>=floor (DESIGN 8)"],
+    ),
+    "C07": dict(
+        pkg="c07", race=False, shards=(4, 16), timeout_s=(300, 1800),
+        technique="before/after monitor on app-limited samples + bounded-progress (stuck-detection) monitor on healthy saturated runs from seeded reachable states",
+        level_text="From PRNG-generated reachable states (valid config + prior history with drops, zero and huge RTTs): app-limited non-drop samples "
+                   "(2*inFlight < reported estimate; AIMD inFlight < limit, including the edge value) must not raise the estimate; healthy saturated "
+                   "runs at the baseline RTT must add the increment on every sample (AIMD), grow by at least the queue allowance per non-probe sample "
+                   "(Gradient), or bring the reported estimate to ceiling-1 within an analytic sample bound (Vegas, Gradient2); a run that stopped "
+                   "rising below the ceiling is a violation, one still rising at the cap is inconclusive. Exploration.",
+        require=["app_limited_samples", "app_limited_samples_at_the_edge", "healthy_samples", "recovered/aimd", "recovered/vegas",
+                 "recovered/gradient", "recovered/gradient2", "gradient_probes_observed"],
+        rule="case = (algorithm, valid config, random prefix of 0-150 hostile/drop-heavy/benign samples) then app-limited samples or a healthy "
+             "saturated run; non-trivial = run started below ceiling-1 (always for app-limited cases); distinct = distinct (config, start estimate, history length).",
+        assumptions=COMMON_ASSUME + ["bounded part: smoothing>=0.05, max<=300, Vegas probe multiplier>=5, rtt tolerance>=1, long window in [1,200], "
+                                     "Gradient initial>=floor (DESIGN 8)"],
+    ),
 }
